@@ -38,3 +38,13 @@ chk("C17", "model_checking", "C",
     "DESIGN.md §2 C17",
     "From each of 64 initial TSM states (every subset of pre-bound indices x distractor entries) all histories of depth 2 (quick) / 3 (thorough), and depth 3 / 4 from 7 selected initial states, over a 162-request alphabet: an invalid request must fail with zero client operations; a valid one must cause exactly one digest write of exactly the digest (or SHA-384 of the log) to the entry bound to the index, creating an entry only when none exists; every register equals the reference SHA-384 extend chain in every reached state.",
     "The configfs-tsm rtmrs subsystem is a model (harness/world/tsm.go); go-configfs-tsm is executed for real on top of it.")
+chk("C02", "exploration", "A",
+    "deviation-bounded exhaustive DFS (Engine A) over (quote PKI, trusted pool, look-alike substitution, role-confusion chain, per-certificate defect, chain assembly) on the real verifier, judged by an independent key-level trust condition; plus an exhaustive table of root-of-trust configurations",
+    "DESIGN.md §2 C02",
+    "All worlds with <=3 deviations at L0 and <=2 at L2 (quick; <=3 at all levels and <=4 at L0 thorough) from a menu of 2 PKIs x 7 pools x 3 look-alike substitutions x 16 role-confusion chains x 7 defects per chain position x 6 orders x 7 assembly variants: any acceptance must satisfy 'leaf is PCK-role, signed by the quote's intermediate, which is signed by a key of the effective pool'. 21 root-of-trust configurations x quotes under two PKIs are judged two-directionally (trusts exactly what it lists); Intel's sample quote must be accepted only under the embedded root.",
+    CRYPTO + " Mechanism-only deviations (ECDSA-SHA384 certificate, missing SGX extension) have no stated verdict and are checked for no-panic only.")
+chk("C03", "fault_enumeration", "A",
+    "exhaustive fault enumeration of collateral endpoint answers on the real verifier: all single-bit mutants of signed bodies (and headers), deviation-bounded DFS over a signing/issuer-chain/encoding/field menu, and a full product of unsigned shadow members; judged by an independent authenticity check plus the reference verdict of the signed members alone",
+    "DESIGN.md §2 C03",
+    "~12.8k body bit mutants (+ ~40k header bit mutants thorough), all <=2 (quick) / <=3 (thorough) combinations of a 10-dimensional response menu for both documents, and 1020 shadow-member / shadow-signature responses (5 genuine-document variants x key spelling incl. case and Unicode-fold variants x before/after x 9 shadow contents). Oracle: accept => both responses authentic (member bytes verify under a signature of the same response with a root-issued 'Intel SGX TCB Signing' certificate chaining to the trusted roots) and the signed members alone dictate acceptance.",
+    CRYPTO + " V is computed with the reference TCB/QE algorithms of C04/C07 (harness/ref).")
